@@ -146,10 +146,14 @@ structure ChainState where
 
 /-! ### adversarial / environmental inputs carried by every op -/
 
+/-- `exported.Status` of a light client -/
+inductive Status | active | expired | frozen | unknown | unauthorized
+deriving DecidableEq, Repr
+
 structure LcEnv where
   /-- light-client `Status` answer: default and per-client overrides -/
-  st : String
-  stOf : List (Id × String)
+  st : Status
+  stOf : List (Id × Status)
   /-- `LatestHeight` answer -/
   lh : Height
   lhOf : List (Id × Height)
